@@ -591,6 +591,12 @@ func reifyMergeValue(
 		if err != nil {
 			return reflect.Value{}, err
 		}
+		if err := runValidators(old.Interface(), opts.validators); err != nil {
+			return reflect.Value{}, raiseValidation(val.Context(), val.meta(), "", err)
+		}
+		if err := tryValidate(old); err != nil {
+			return reflect.Value{}, raiseValidation(val.Context(), val.meta(), "", err)
+		}
 		return pointerize(t, baseType, old), nil
 	}
 
